@@ -190,6 +190,21 @@ func init() {
 				}
 				judgeEqual(c, jp.Equal, "", aT, bT, "malformed")
 			}},
+			{Name: "deep-texts", Exhaustive: true, Count: func(core.Tier) int { return len(deepDepths) * 3 }, Run: func(c *core.Ctx, idx int) {
+				d := deepDepths[idx/3]
+				a := deepWrap(d, `{"k":[1,{"m":"s"}],"n":null}`)
+				var b, kind string
+				switch idx % 3 {
+				case 0:
+					b, kind = deepWrap(d, ` { "n" : null , "k":[1,{"m":"\u0073"}]}`), "equal-by-construction"
+				case 1:
+					b, kind = deepWrap(d, `{"k":[1,{"m":"t"}],"n":null}`), "one-point-difference"
+				default:
+					b, kind = deepWrap(d, `{"k":[1,{"m":"s"}]}`), "one-point-difference"
+				}
+				judgeEqual(c, jp.Equal, "", a, b, kind)
+				c.Count("deep:cases")
+			}},
 			{Name: "padded-root-scalars", Count: n(20000, 400000), Run: func(c *core.Ctx, idx int) {
 				// both texts are scalars at the root with whitespace around them, of equal and of different length
 				sc := []string{"1", "2", "10", "-1", "1.0", "1e2", "true", "null", "false", `"a"`, `"b"`, `"ab"`, `"1"`, `""`, "1234", `"abc"`, "0", "7"}
